@@ -40,6 +40,11 @@ structure St where
   vals : Array ValRec := #[]
   net : Array NetNode := #[]
   netTy : Array CType := #[]
+  netName : Array String := #[]
+  cycle : Nat := 0
+  runIsAbs : Bool := true
+  absSeqNv : Array (Array BV4) := #[]
+  absSeqXv : Array (Array BV4) := #[]
   xo : Array Nat := #[]
   env : Array BV4 := #[]
   stim : String := ""
@@ -137,6 +142,7 @@ def parseNode (toks : List String) : Option (NetNode × CType × String) :=
     | ["mux"] => mk (.node .mux cty) "mux"
     | ["prio"] => mk (.node .prio cty) "prio"
     | ["const", v] => mk (.node (.const (BV4.ofString v)) cty) "const"
+    | ["reg"] => mk (.input 0) "reg"     -- register output: state, taken from the implementation (C08 `seq` mode)
     | _ => none
   | _ => none
 
@@ -385,10 +391,11 @@ def checkNodes (s : St) (impl : Array BV4) : St := Id.run do
   let mut vals : Array (Option BV4) := #[]
   for i in [0:s.net.size] do
     let n := s.net[i]!
-    let r := evalNetNode s.env.toList vals.toList n
+    let isReg := s.netName.getD i "" == "reg"
+    let r := if isReg then some (impl.getD i []) else evalNetNode s.env.toList vals.toList n
     vals := vals.push r
     let kindName := match n.kind with
-      | .input _ => "in" | .signal => "sig"
+      | .input _ => (if isReg then "reg" else "in") | .signal => "sig"
       | .node k _ => match k with
         | .logic _ => "logic" | .arith _ => "arith" | .compare _ _ => "compare" | .shift _ _ => "shift"
         | .rewire _ => "rewire" | .mux => "mux" | .prio => "prio" | .const _ => "const"
@@ -412,7 +419,7 @@ def checkOps (s : St) (xv : Array BV4) (checkSpec : Bool) : St := Id.run do
   let mut s := s
   for k in [0:s.vals.size] do
     let r := s.vals[k]!
-    if r.op == "pin" ∨ r.op == "lit" ∨ r.err != "" then continue
+    if r.op == "pin" ∨ r.op == "lit" ∨ r.op == "regq" ∨ r.err != "" then continue
     let a := argsOf s xv r
     let impl := xv.getD k []
     s := { s with feEvals := s.feEvals + 1 }
@@ -455,7 +462,7 @@ def checkShapes (s : St) : St := Id.run do
   let mut s := s
   for k in [0:s.vals.size] do
     let r := s.vals[k]!
-    if r.op == "pin" ∨ r.op == "lit" then continue
+    if r.op == "pin" ∨ r.op == "lit" ∨ r.op == "regq" then continue
     let a : List Arg := r.args.map fun j => let x := s.vals.getD j {}; ⟨x.ty, x.pol, List.replicate x.w .f⟩
     s := { s with ops := s.ops + 1, opHist := bump s.opHist (opBase r.op), widthHist := bump s.widthHist (widthBucket r.w) }
     let fe := feOp r.op a r.params
